@@ -121,7 +121,7 @@ impl WorkerCounterGuard {
 //@extract file=actix-server/src/worker.rs item="impl Drop for WorkerCounterGuard / fn drop" props=C02,C03,C08 name=worker::WorkerCounterGuard::drop trace_calls=wake
 //@spec
     requires true,
-//@insert fn_end=1
+//@insert fn_exit=1
         // a finished connection decrements ITS worker's counter once; the accept thread is notified — with this worker's
         // index — exactly when that decrement leaves the limit   [C03]
         assert(old(self).0.inner@.1.dec_result() ==> r24_trace == seq![0int]
